@@ -51,6 +51,8 @@ def cases(tier, seed):
         for obj, strat, lik, comb in itertools.product(["VariationalELBO", "PredictiveLogLikelihood"], ["VariationalStrategy", "UnwhitenedVariationalStrategy"], ["gauss", "bernoulli"], [True, False]):
             yield {"kind": "definition", "objective": obj, "strategy": strat, "lik": lik, "beta": rnd.choice([0.1, 1.0, 3.0]), "priors": rnd.random() < 0.5, "combine_terms": comb, "added": True,
                    "N": rnd.choice([20, 33]), "B": rnd.choice([1, 7, 12]), "batch": rnd.choice([[], [2]]), "seed": rnd.randrange(10**6)}
+        for obj, strat in itertools.product(["VariationalELBO", "PredictiveLogLikelihood"], ["VariationalStrategy", "UnwhitenedVariationalStrategy"]):
+            yield {"kind": "nan_minibatch", "objective": obj, "strategy": strat, "beta": rnd.choice([0.3, 1.0]), "N": 30, "B": rnd.choice([6, 10]), "seed": rnd.randrange(10**6)}
         for obj, wrapper, T, beta in itertools.product(["VariationalELBO", "PredictiveLogLikelihood"], ["indep", "lmc"], [2, 3], [1.0, 0.3]):
             yield {"kind": "definition_mt", "objective": obj, "wrapper": wrapper, "T": T, "beta": beta, "N": rnd.choice([20, 33]), "B": rnd.choice([1, 5, 9]), "seed": rnd.randrange(10**6)}
         for strat, q in itertools.product(["VariationalStrategy", "UnwhitenedVariationalStrategy"], ["random", "tinyS", "hugeS", "farmean", "prior", "optimal"]):
@@ -136,7 +138,7 @@ def run_case(case, ctx):
 
 
 def _dispatch(case, ctx, g):
-    return {"definition": _definition, "definition_mt": _definition_mt, "bound": _bound, "ngd": _ngd}[case["kind"]](case, ctx, g)
+    return {"definition": _definition, "nan_minibatch": _nan_minibatch, "definition_mt": _definition_mt, "bound": _bound, "ngd": _ngd}[case["kind"]](case, ctx, g)
 
 
 def _definition(case, ctx, g):
@@ -267,6 +269,51 @@ def _definition(case, ctx, g):
             ref_terms = -0.5 * ((yb - mean) ** 2 / (var + r) + torch.log(var + r) + math.log(2 * math.pi))
         ctx.close("per_point_terms", terms, ref_terms.expand(terms.shape), (1e-9, 1e-9), cls=cls + ":terms")
     ctx.cell({k: v for k, v in case.items() if k != "seed"}, nontrivial=float(kl.abs().max()) > 1e-3)
+
+
+def _nan_minibatch(case, ctx, g):
+    """a minibatch whose targets miss some entries, under observation_nan_policy mask / fill: the data term is the sum over the
+    OBSERVED points divided by the minibatch size B (the missing points contribute nothing), KL and prior terms unchanged -
+    the same value under both policies"""
+    import torch
+
+    import gpytorch
+    from gpytorch import settings as S
+    from vf import util
+    from vf.checks import c14
+
+    N, B = case["N"], case["B"]
+    m = _model(case["strategy"], "CholeskyVariationalDistribution", util.randn(g, M_, D), [])
+    util.randomize(m.mean_module, g, 0.5)
+    util.randomize(m.covar_module, g, 0.4)
+    c14._randomize_vd(m.variational_strategy._variational_distribution, "CholeskyVariationalDistribution", g)
+    _init_flags(m)
+    lik = gpytorch.likelihoods.GaussianLikelihood()
+    util.randomize(lik, g, 0.4)
+    X, y = util.randn(g, B, D), util.randn(g, B)
+    miss = torch.zeros(B, dtype=torch.bool)
+    miss[torch.randperm(B, generator=g)[: max(1, B // 3)]] = True
+    yn = y.clone()
+    yn[miss] = float("nan")
+    m.train()
+    lik.train()
+    obj = getattr(gpytorch.mlls, case["objective"])(lik, m, num_data=N, beta=case["beta"], combine_terms=False)
+    with torch.no_grad():
+        ll_obs, kl_ref, pr_ref = obj(m(X[~miss]), y[~miss])[:3]
+        ref_ll = ll_obs * float((~miss).sum()) / B
+        got = {}
+        for pol in ("mask", "fill"):
+            with S.observation_nan_policy(pol):
+                try:
+                    got[pol] = obj(m(X), yn)[:3]
+                except Exception as e:
+                    ctx.fail("objective_matches_definition", f"{case['objective']} with NaN targets under policy {pol} raised {type(e).__name__}: {str(e)[:120]}", "raise", exc=type(e).__name__, policy=pol)
+    cls = f"{case['objective'][:6]}:nan_minibatch"
+    for pol, (ll, kl, pr) in got.items():
+        ctx.expect("objective_matches_definition", bool(torch.isfinite(ll).all()), f"NaN in the objective under policy {pol}", policy=pol)
+        ctx.close("objective_matches_definition", ll, ref_ll, (1e-9, 1e-9), cls=cls + ":" + pol + ":ll", part="ll", policy=pol)
+        ctx.close("objective_matches_definition", kl, kl_ref, (1e-9, 1e-9), cls=cls + ":" + pol + ":kl", part="kl", policy=pol)
+    ctx.cell({k: v for k, v in case.items() if k != "seed"}, nontrivial=True)
 
 
 def _definition_mt(case, ctx, g):
